@@ -75,7 +75,8 @@ fn main() {
         "sig" => {
             let extra = arg(&args, "--extra").and_then(|s| s.parse().ok()).unwrap_or(100);
             let rounds = arg(&args, "--rounds").and_then(|s| s.parse().ok()).unwrap_or(1);
-            sigdump::run(seed, extra, rounds, &out);
+            let history = arg(&args, "--history").and_then(|s| s.parse().ok()).unwrap_or(0);
+            sigdump::run(seed, extra, rounds, history, &out);
         }
         "decode" => {
             let n = arg(&args, "--n").and_then(|s| s.parse().ok()).unwrap_or(600);
